@@ -122,7 +122,8 @@ static void build_table() {
 
 static void record_state(long step) {
   // conserved totals and a digest of the full state in global cell order
-  double tot[5] = {0, 0, 0, 0, 0};
+  double tot[5] = {0, 0, 0, 0, 0}, abs_[5] = {0, 0, 0, 0, 0};
+  std::vector< double > full;
   uint64_t digest = 1469598103934665603ull;
   double minm = 1e300, mine = 1e300;
   bool finite = true;
@@ -134,6 +135,8 @@ static void record_state(long step) {
                            h.get_conserved_momentum()[2], h.get_conserved_total_energy()};
       for (int k = 0; k < 5; ++k) {
         tot[k] += v[k];
+        abs_[k] += std::fabs(v[k]);
+        full.push_back(v[k]);
         finite = finite && std::isfinite(v[k]);
       }
       minm = std::min(minm, v[0]);
@@ -149,8 +152,12 @@ static void record_state(long step) {
     e1::add_violation("C04:not-finite", fmt("step %ld: non-finite hydro state", step));
   if (minm < 0. || mine < 0.)
     e1::add_violation("C04:negative-conserved", fmt("step %ld: min mass %g min energy %g", step, minm, mine));
-  g_state_lines += fmt("S %ld %a %a %a %a %a %016llx;", step, tot[0], tot[1], tot[2], tot[3], tot[4],
-                       (unsigned long long)digest);
+  g_state_lines += fmt("S %ld %a %a %a %a %a %a %a %a %a %a %016llx;", step, tot[0], tot[1], tot[2], tot[3], tot[4],
+                       abs_[0], abs_[1], abs_[2], abs_[3], abs_[4], (unsigned long long)digest);
+  g_state_lines += fmt("F %ld", step);
+  for (double x : full)
+    g_state_lines += fmt(" %a", x);
+  g_state_lines += ";";
 }
 
 static void monitor(const e1::Event &e) {
@@ -245,6 +252,8 @@ int main(int argc, char **argv) {
       {"1x1x1-periodic-x", 1, 1, 1, true, false, false, 2},
       {"2x1x1-periodic-y", 2, 1, 1, false, true, false, 2},
       {"1x1x1-periodic-xyz", 1, 1, 1, true, true, true, 1},
+      {"2x1x1-periodic-xyz", 2, 1, 1, true, true, true, 2},
+      {"2x2x1-periodic-xyz", 2, 2, 1, true, true, true, 1},
   };
   std::vector< Job > jobs;
   for (const Config &c : cfgs) {
@@ -381,36 +390,97 @@ int main(int argc, char **argv) {
     if (ij < 3 && !st.sample_schedules.empty())
       R.sample(fmt("{\"config\": \"%s\", \"deviations(pos:choice;len)\": \"%s\", \"default_outcome\": \"%s\"}", tag.c_str(),
                    st.sample_schedules.back().c_str(), json_escape(d1.outcome.substr(0, 200)).c_str()));
-    if (g_mode == 1 && st.outcomes.size() > 1) {
-      // C10: all schedules must give the same state up to summation order; the
-      // outcome string carries the totals and the digest of every step
-      // (compared numerically below)
-      std::vector< std::vector< double > > tots;
+    if (g_mode == 1) {
+      // C10: every explored schedule must give the same cell states as the
+      // default (sequential-like) schedule up to summation round-off; C04: in a
+      // fully periodic box the conserved totals do not change from step to step
+      auto parse = [](const std::string &o, std::map< long, std::vector< double > > &tot,
+                      std::map< long, std::vector< double > > &full) {
+        const char *s = o.c_str();
+        while ((s = strchr(s, ';')) || true) {
+          if (!s)
+            break;
+          ++s;
+          if (!*s)
+            break;
+        }
+        size_t pos = 0;
+        while (pos < o.size()) {
+          size_t e = o.find(';', pos);
+          if (e == std::string::npos)
+            break;
+          const std::string item = o.substr(pos, e - pos);
+          pos = e + 1;
+          size_t q = item.find("S ");
+          if (item.compare(0, 2, "S ") == 0 || (q != std::string::npos && item[0] == '[')) {
+            const char *c = item.c_str() + (item.compare(0, 2, "S ") == 0 ? 0 : q);
+            long step;
+            double t[10];
+            if (sscanf(c, "S %ld %la %la %la %la %la %la %la %la %la %la", &step, &t[0], &t[1], &t[2], &t[3], &t[4], &t[5],
+                       &t[6], &t[7], &t[8], &t[9]) == 11)
+              tot[step] = std::vector< double >(t, t + 10);
+          } else if (item.compare(0, 2, "F ") == 0) {
+            char *endp;
+            const char *c = item.c_str() + 2;
+            long step = strtol(c, &endp, 10);
+            std::vector< double > v;
+            while (*endp) {
+              char *nx;
+              double x = strtod(endp, &nx);
+              if (nx == endp)
+                break;
+              v.push_back(x);
+              endp = nx;
+            }
+            full[step] = v;
+          }
+        }
+      };
+      std::map< long, std::vector< double > > tot0, full0;
+      parse(d1.outcome, tot0, full0);
+      if (full0.empty())
+        R.violation("C10:no-state-recorded:" + J.cfg.name, "the default schedule recorded no hydro state [" + tag + "]");
+      const bool fully_periodic = J.cfg.px && J.cfg.py && J.cfg.pz;
+      uint64_t distinct_states = 0;
       for (auto &kv : st.outcomes) {
-        std::vector< double > v;
-        const char *s = kv.first.c_str();
-        while ((s = strstr(s, "S "))) {
-          long step;
-          double t[5];
-          if (sscanf(s, "S %ld %la %la %la %la %la", &step, &t[0], &t[1], &t[2], &t[3], &t[4]) == 6)
-            for (int k = 0; k < 5; ++k)
-              v.push_back(t[k]);
-          s += 2;
+        std::map< long, std::vector< double > > tot, full;
+        parse(kv.first, tot, full);
+        ++distinct_states;
+        for (auto &fs : full) {
+          auto ref = full0.find(fs.first);
+          if (ref == full0.end() || ref->second.size() != fs.second.size())
+            continue;
+          double scale[5] = {0, 0, 0, 0, 0};
+          for (size_t i = 0; i < fs.second.size(); ++i)
+            scale[i % 5] = std::max(scale[i % 5], std::fabs(ref->second[i]));
+          // momentum components share one scale
+          const double ms = std::max(scale[1], std::max(scale[2], scale[3]));
+          scale[1] = scale[2] = scale[3] = ms;
+          for (size_t i = 0; i < fs.second.size(); ++i)
+            if (std::fabs(fs.second[i] - ref->second[i]) > 1e-13 * scale[i % 5]) {
+              R.violation("C10:schedule-dependent-state:" + J.cfg.name,
+                          fmt("step %ld cell %zu variable %zu: %.17g under some schedule, %.17g under the default schedule [%s]",
+                              fs.first, i / 5, i % 5, fs.second[i], ref->second[i], tag.c_str()));
+              break;
+            }
         }
-        tots.push_back(v);
-      }
-      for (size_t a = 1; a < tots.size(); ++a) {
-        if (tots[a].size() != tots[0].size())
-          continue;
-        for (size_t k = 0; k < tots[a].size(); ++k) {
-          double scale = 0.;
-          for (size_t q = k - k % 5; q < k - k % 5 + 5; ++q)
-            scale = std::max(scale, std::fabs(tots[0][q]));
-          if (std::fabs(tots[a][k] - tots[0][k]) > 1e-12 * scale)
-            R.violation("C10:schedule-dependent-totals:" + J.cfg.name,
-                        fmt("conserved total %zu differs between schedules: %.17g vs %.17g [%s]", k % 5, tots[a][k], tots[0][k], tag.c_str()));
+        if (fully_periodic) {
+          auto t0 = tot.find(0);
+          for (auto &ts : tot) {
+            if (t0 == tot.end() || ts.first == 0)
+              continue;
+            const double mscale = std::max(ts.second[6], std::max(ts.second[7], ts.second[8]));
+            for (int k = 0; k < 5; ++k) {
+              const double sc = (k >= 1 && k <= 3) ? mscale : ts.second[5 + k];
+              if (std::fabs(ts.second[k] - t0->second[k]) > 1e-12 * sc)
+                R.violation(fmt("C04:conservation:periodic:variable-%d:", k) + J.cfg.name,
+                            fmt("total of conserved variable %d changes from %.17g to %.17g in step %ld [%s]", k, t0->second[k],
+                                ts.second[k], ts.first, tag.c_str()));
+            }
+          }
         }
       }
+      R.set("distinct_final_states:" + tag + fmt("/bound=%d", J.bound), (double)distinct_states);
     }
     for (const e1::ExecResult &f : st.failures) {
       std::string key, detail;
